@@ -94,6 +94,9 @@ KEEP_DUR_OR_PITCH = [
     (['DURATION', 'STRUCTURAL'], None), (['PITCH', 'ALTERATION', 'STRUCTURAL', 'SIGNATURES'], None), (None, ['PITCH']),
     (None, ['DURATION', 'COMMENTS']), (['NOTE_REST', 'CHORD', 'STRUCTURAL', 'CLEF'], ['REST']), (None, ['ALTERATION', 'LYRICS']),
     (['CORE', 'STRUCTURAL', 'SIGNATURES', 'BARLINES', 'IMAGE_ANNOTATIONS'], None),
+    # selections under which SOME notes / rests keep nothing but their signifiers (a duration-less note without its pitch, a rest without
+    # duration and rest letter): their basic form is a null cell
+    (None, ['PITCH', 'ALTERATION']), (None, ['DURATION', 'REST']),
 ]
 
 
@@ -212,6 +215,25 @@ def sess_c06(seed, profile='main'):
             ids = r.sample(range(n), r.randint(0, n))
             ts = r.sample(present, r.randint(0, len(present)))
             evs.append(session.record_call(doc, {'op': 'dumps', 'args': session.dumps_args(ids=ids, types=ts), 'exact': True, 'base': base}))
+        # ONE Exporter and ONE default ExportOptions object (spine_ids left at None = every spine) serve this document and then a WIDER one
+        import kernpy as kp
+        wide = None
+        for k in range(1, 8):
+            r2, lines2, types2 = make_doc(seed * 31 + k, profile, max_rows=8)
+            if len(types2) > n:
+                try:
+                    wide, _ = kp.loads(session.render(lines2))
+                except Exception:  # noqa
+                    wide = None
+                break
+        if wide is not None:
+            try:
+                ex, opts = kp.Exporter(), kp.ExportOptions()
+                ok = ex.export_string(doc, opts) == kp.dumps(doc) and ex.export_string(wide, opts) == kp.dumps(wide) and ex.export_string(doc, opts) == kp.dumps(doc)
+            except Exception:  # noqa
+                ok = False
+            evs.append({'ev': 'call', 'op': 'flag', 'name': 'dumps.same_with_reused_exporter_and_options_on_a_wider_document', 'value': ok, 'args': {},
+                        'snap': session.snapshot(doc)})
     return finish_session(lines, evs, text, seed, features(lines))
 
 
@@ -398,6 +420,22 @@ def sess_c10(seed, profile='main', plain_acc=True):
             o = random_options(r, types)
             o['enc'] = r.choice(['akern', 'aekern'])
             evs.append(session.record_call(doc, {'op': 'dumps', 'args': session.dumps_args(**o), '_form': r.randrange(9), 'base': idx['ekern']}))
+        # the tokenizers used directly (class API): the same token object converted under clefs of the caller's choice
+        import kernpy as kp
+        notes = [(si + 1, pi + 1, n) for si, st in enumerate(doc.tree.stages) for pi, n in enumerate(st)
+                 if type(n.token).__name__ == 'NoteRestToken' and n.header_node is not None and n.header_node.token.encoding == '**kern']
+        for (si, pi, n) in (notes if len(notes) <= 3 else r.sample(notes, 3)):
+            for clef in r.sample(['*clefG2', '*clefF4', '*clefC3', '*clefC1', '*clefF3', '*clefC4'], 3):
+                enc = r.choice(['akern', 'aekern'])
+                ev = {'ev': 'call', 'op': 'tokenize', 'ptr': [si, pi], 'clef': cps(clef), 'enc': enc, 'args': {}}
+                try:
+                    tk = kp.TokenizerFactory.create(getattr(kp.Encoding, session.ENC[enc]).value, token_categories=set(kp.TokenCategory),
+                                                    last_clef_reference=kp.core.tokens.ClefToken(clef))
+                    ev['res'] = {'ok': True, 't': cps(tk.tokenize(n.token))}
+                except Exception as ex:  # noqa
+                    ev['res'] = {'ok': False, 't': [], 'exc': type(ex).__name__}
+                ev['snap'] = session.snapshot(doc)
+                evs.append(ev)
     tags = features(lines)
     nclefs = len({tuple(c['t']) for c in gen.all_cells(lines) if c['k'] == 'clef'})
     if nclefs >= 2:
